@@ -88,7 +88,7 @@ def main(tier='quick'):
           'coverage': {'states': mc.distinct, 'transitions': mc.generated,
                        'traces_validated_against_impl': len(traces), 'multi_fragment_messages': n_nontrivial,
                        'trace_events_validated': sum(len(t) for t in traces),
-                       'samples': [{'message': metas[i], 'trace': traces[i][:8]} for i in (0, len(traces) // 2, len(traces) - 1)],
+                       'samples': [{'message': metas[i], 'trace': traces[i][:8]} for i in sorted({0, len(traces) // 2, len(traces) - 1}) if 0 <= i < len(traces)],
                        'exhaustive': False},
           'assumptions': ['one PDV per P-DATA-TF (what the library does) is required by the sender specification',
                           'byte equality of concatenated fragments is evaluated by the harness; TLC decides sizes, flags, order and tiling']}
